@@ -9,6 +9,8 @@ pub mod conc;
 pub mod text;
 pub mod pb;
 pub mod c16;
+pub mod macros;
+pub mod macro_sites;
 use crate::Area;
 pub fn lookup(name: &str) -> Option<Box<dyn Area>> {
     match name {
@@ -22,6 +24,7 @@ pub fn lookup(name: &str) -> Option<Box<dyn Area>> {
         "text" => Some(Box::new(text::TextArea)),
         "pb" => Some(Box::new(pb::PbArea)),
         "c16" => Some(Box::new(c16::C16Area)),
+        "macro" => Some(Box::new(macros::MacroArea)),
         "catom" => Some(Box::new(conc::ConcAtomic { kinds: &["counter", "intcounter", "gauge", "intgauge"] })),
         "catomc" => Some(Box::new(conc::ConcAtomic { kinds: &["counter", "intcounter"] })),
         "catomg" => Some(Box::new(conc::ConcAtomic { kinds: &["gauge", "intgauge"] })),
